@@ -297,28 +297,32 @@ func run[T interface {
 		cat := o.K
 		switch o.K {
 		case "add":
+			ub := sort.Search(len(model), func(j int) bool { return less(val, model[j]) })
 			got := s.Add(val)
 			model = append(model, val)
 			copy(model[lb+1:], model[lb:])
 			model[lb] = val
 			changes++
-			if got != lb {
-				return fail(i, o, "add-position", "Add returned %d, the value now sits at %d", got, lb), h, changes
+			// equal values cannot be told apart: any position inside the run of
+			// values equal to the new one is "where it now sits"
+			if got < lb || got > ub {
+				return fail(i, o, "add-position", "Add returned %d, the value now sits at %d..%d", got, lb, ub), h, changes
 			}
 		case "remove":
 			cat = "remove-absent"
-			want := -1
+			lo, hi := -1, -1
 			if present {
 				cat = "remove-present"
-				want = lb
+				ub := sort.Search(len(model), func(j int) bool { return less(val, model[j]) })
+				lo, hi = lb, ub-1 // the former position of any one occurrence
 			}
 			got := s.Remove(val)
 			if present {
 				model = append(model[:lb], model[lb+1:]...)
 				changes++
 			}
-			if got != want {
-				return fail(i, o, "remove-result:"+cat, "Remove returned %d want %d", got, want), h, changes
+			if got < lo || got > hi {
+				return fail(i, o, "remove-result:"+cat, "Remove returned %d, want a position in %d..%d", got, lo, hi), h, changes
 			}
 		case "removeat":
 			in := o.V >= 0 && o.V < len(model)
